@@ -169,7 +169,10 @@ Proof.
   rewrite R2.
   assert (C : ((Z.of_nat (length a) <? 0) || (Z.of_nat (length a) >? max_bulk)) = false).
   { unfold arg_ok in Ha. lia. }
-  rewrite C. rewrite Nat2Z.id.
+  rewrite C.
+  assert (Hmin : Z.min (Z.of_nat (length a)) (Z.of_nat (length (stream n2)) + 1) = Z.of_nat (length a)).
+  { rewrite S2, app_length. lia. }
+  rewrite Hmin. rewrite Nat2Z.id.
   destruct (readByteN_spec a s2 n2 (crlf ++ rest) W2 S2) as [s3 [n3 [R3 [W3 S3]]]]. rewrite R3.
   destruct (readLine_spec [] (malloc s3) n3 CR rest (Forall_nil _) CR_noLF S3) as [s4 [n4 [R4 [W4 S4]]]].
   rewrite R4, W3. eexists. eexists. split; [reflexivity|]. split; [apply win_malloc|exact S4].
